@@ -1,7 +1,7 @@
 (* Model/C07Run.v - case type and checker evaluated on harness-generated cases (C07).
    Every observation was made on the REAL client (child process of harness/c07). *)
 From ReqV Require Export Lib.Bytes Model.Decode Model.BodyStages Model.H1Resp Model.H1Limits Model.AltSvc Model.H2Info.
-From ReqV Require Model.Digest Model.H3Frame Model.H3Limits Gen.C07Consts.
+From ReqV Require Model.Digest Model.H3Frame Model.H3Limits Gen.C07Consts Model.H2GoAway.
 
 (* run-length piece for big hostile streams: [repN n b] = n copies of byte b *)
 Definition repN (n b : N) : bytes := repeat (byte_of_N_total b) (N.to_nat n).
@@ -29,7 +29,9 @@ Inductive c07_case :=
 (* a digest challenge through parseChallenge + authorize: 0 = not parsed, 1 = algorithm refused, 2 = algorithm accepted *)
 | DigestAlgCase (chal : bytes) (obs : N)
 (* the header map of an accepted head: number of distinct (canonical) names and of values *)
-| HdrCase (meth : bytes) (bufsize : N) (stream : bytes) (nkeys nvals : N).
+| HdrCase (meth : bytes) (bufsize : N) (stream : bytes) (nkeys nvals : N)
+(* HTTP/2: the GOAWAY frames served, and the GoAwayError the pending request ended with *)
+| GoAwayCase (frames : list H2GoAway.gframe) (obs_last obs_code : N) (obs_debug : bytes).
 
 Definition perr_eqb (a b : perr) : bool :=
   match a, b with
@@ -104,6 +106,11 @@ Definition c07_check (c : c07_case) : bool :=
                  | None => (o =? 1)%N
                  | Some _ => (o =? 2)%N
                  end
+      end
+  | GoAwayCase fs l c d =>
+      match H2GoAway.goaway_run None fs with
+      | Some st => (H2GoAway.gs_last st =? l)%N && (H2GoAway.gs_code st =? c)%N && bytes_eqb (H2GoAway.gs_debug st) d
+      | None => false
       end
   | HdrCase m bsz s nk nv =>
       match read_response_head m (N.to_nat bsz) s with
